@@ -12,6 +12,14 @@ const KINDS: &[(&str, &str)] = &[
     ("strings", "(string-append \"ab\" (number->string i))"),
     ("closures", "((lambda (x) (lambda () x)) i)"),
     ("continuations", "(call/cc (lambda (k) k))"),
+    // only the ten newest continuations stay reachable; what older ones (and dead stack slots at capture) referenced must go
+    ("continuation-ring", "(call/cc (lambda (c) (vector-set! ring (modulo i 10) c) i))"),
+    ("continuation-ring-with-operands", "(list (list i i) (call/cc (lambda (c) (vector-set! ring (modulo i 10) c) i)) (vector i))"),
+    ("escape-from-depth", "(call/cc (lambda (k) (let down ((d 30)) (if (= d 0) (k (list i)) (cons d (down (- d 1)))))))"),
+    ("global-redefinition", "(eval (list 'define 'regl (list 'quote (list i (vector i)))))"),
+    ("string-mutation", "(let ((s (make-string 12 #\\a))) (string-set! s 3 #\\λ) (string-fill! s #\\b) (string->list (string-append s (number->string (modulo i 10)))))"),
+    // one computation whose length is the work: an iterative promise loop (R7RS delay-force) must run in constant space
+    ("delay-force-chain", "@(define (dloop n) (if (= n 0) (delay 'done) (delay-force (dloop (- n 1)))))|(force (dloop NN))"),
     ("eval-code", "(eval (list '+ i 1))"),
     ("symbols", "(string->symbol (string-append \"s\" (number->string i)))"),
     ("bignums", "(* 123456789012345678901234567890 i)"),
@@ -40,16 +48,33 @@ struct M {
 
 fn measure(kind: usize, live: u64, n: u64, toplevel: bool) -> Option<M> {
     let mut im = Impl::new();
+    let (body, driver): (&str, Option<(&str, &str)>) = match KINDS[kind].1.strip_prefix('@') {
+        Some(rest) => {
+            let (defs, call) = rest.split_once('|').expect("driver kind is @definitions|call");
+            ("'unused", Some((defs, call)))
+        }
+        None => (KINDS[kind].1, None),
+    };
     let setup = format!(
-        "(define live (let lp ((j 0) (acc '())) (if (< j {}) (lp (+ j 1) (cons (vector j) acc)) acc))) (define (spin i) (if (> i 0) (begin {} (spin (- i 1))) 'done))",
-        live, KINDS[kind].1
+        "(define ring (make-vector 10 #f)) (define live (let lp ((j 0) (acc '())) (if (< j {}) (lp (+ j 1) (cons (vector j) acc)) acc))) (define (spin i) (if (> i 0) (begin {} (spin (- i 1))) 'done))",
+        live, body
     );
     for f in parse_forms(&setup).ok()? {
         if !matches!(im.eval(&f), ImplOut::Value(_)) {
             return None;
         }
     }
-    if toplevel {
+    if let Some((defs, call)) = driver {
+        for f in parse_forms(defs).ok()? {
+            if !matches!(im.eval(&f), ImplOut::Value(_)) {
+                return None;
+            }
+        }
+        let call = parse_forms(&call.replace("NN", &n.to_string())).ok()?.remove(0);
+        if !matches!(im.eval(&call), ImplOut::Value(_)) {
+            return None;
+        }
+    } else if toplevel {
         // garbage through successive top-level evaluations (each compiles fresh code)
         let body = parse_forms(&format!("(begin (define i {}) {} 'ok)", 7, KINDS[kind].1).replace("(begin (define i 7)", "((lambda (i)").replace(" 'ok)", ") 7)")).ok()?.remove(0);
         for _ in 0..n {
@@ -135,12 +160,13 @@ pub fn run(ctx: &Ctx) -> i32 {
     let mut acc = a;
     // (a) I2 (and the other audit invariants) after every forced collection, on the C03 programs
     let b = c03::Bounds { periodic: vec![(1, 0), (5, 2)], s1_max_n: ctx.tier.pick(60, 300), s2_max_n: 0 };
+    let all = c03::all_templates();
     let a2 = par_fold(
-        c03::TEMPLATES.len() as u64,
+        all.len() as u64,
         1,
         || c03::St { im: None, used: 0 },
         |st, acc, i| {
-            let (name, text) = c03::TEMPLATES[i as usize];
+            let (name, text) = all[i as usize];
             let forms = parse_forms(text).unwrap();
             let im = c03::vm_for(st);
             if !c03::explore(acc, im, &format!("template:{}", name), text, &forms, &b, "C12") {
